@@ -2,6 +2,7 @@ package an
 
 import (
 	"fmt"
+	"go/constant"
 	"go/token"
 	"go/types"
 	"regexp"
@@ -378,6 +379,23 @@ var afterBlockMethods = map[string]bool{"ForEnd": true, "IfEnd": true, "ElseIfSt
 
 var reCounter = regexp.MustCompile(`field:(\w+)(@[\w/]+)?`)
 
+// isBumpOf: the stored value v is the field f plus one (the read may carry an activation mark).
+func isBumpOf(v, f string) bool {
+	i := strings.Index(v, "field:"+f)
+	if i < 0 {
+		return false
+	}
+	rest := v[i+len("field:"+f):]
+	if strings.HasPrefix(rest, "@") {
+		j := 1
+		for j < len(rest) && (rest[j] == '/' || rest[j] == '_' || rest[j] >= '0' && rest[j] <= '9' || rest[j] >= 'a' && rest[j] <= 'z' || rest[j] >= 'A' && rest[j] <= 'Z') {
+			j++
+		}
+		rest = rest[j:]
+	}
+	return strings.HasPrefix(rest, "+1")
+}
+
 type numUse struct {
 	name    string // literal text directly before the number (name stem)
 	counter string
@@ -433,7 +451,7 @@ func AllocRule(w *World, b *Backend, r *Result, rule string, labelsOnly ...bool)
 		if mf := b.X.Methods[m]; mf != nil {
 			for f, vs := range mf.FieldsSet {
 				for _, v := range vs {
-					if strings.Contains(v, "field:"+f) && strings.Contains(v, "+1") {
+					if isBumpOf(v, f) {
 						instance[f] = true
 					}
 				}
@@ -471,7 +489,7 @@ func AllocRule(w *World, b *Backend, r *Result, rule string, labelsOnly ...bool)
 		bumped := map[string]bool{}
 		for f, vs := range mf.FieldsSet {
 			for _, v := range vs {
-				if strings.Contains(v, "field:"+f) && strings.Contains(v, "+1") {
+				if isBumpOf(v, f) {
 					bumped[f] = true
 				}
 			}
@@ -579,13 +597,19 @@ func AllocRule(w *World, b *Backend, r *Result, rule string, labelsOnly ...bool)
 		if f == "" {
 			continue
 		}
+		// every write advances the counter: the stored value is the field's own value plus a
+		// positive constant, wherever the write is made (one allocator or written out in the methods)
 		writers := map[string]bool{}
+		var notBump []string
 		for _, fn := range w.Funcs(b.Role) {
 			for _, blk := range fn.Blocks {
 				for _, ins := range blk.Instrs {
 					if st, ok := ins.(*ssa.Store); ok {
 						if fa, ok := st.Addr.(*ssa.FieldAddr); ok && b.X.isConvPtr(fa.X.Type()) && structFieldName(fa.X.Type(), fa.Field) == f {
 							writers[FuncName(fn)] = true
+							if !isAdvanceOfField(st.Val, fa) {
+								notBump = append(notBump, FuncName(fn)+" at "+w.Pos(st.Pos()))
+							}
 						}
 					}
 				}
@@ -597,10 +621,11 @@ func AllocRule(w *World, b *Backend, r *Result, rule string, labelsOnly ...bool)
 		}
 		sort.Strings(ws)
 		key := "alloc:" + b.Role + ":helper-counter"
-		if len(ws) == 1 {
-			r.Ok(rule, key, "-", "helper counter "+f+" is written only by "+ws[0])
+		if len(notBump) == 0 {
+			r.Ok(rule, key, "-", fmt.Sprintf("every write of the helper counter %s advances it (written by %v)", f, ws))
 		} else {
-			r.Bad(rule, key, "-", fmt.Sprintf("helper counter %s is written by %v: helper names may repeat", f, ws))
+			sort.Strings(notBump)
+			r.Bad(rule, key, "-", fmt.Sprintf("helper counter %s is given a value that is not its own value plus a positive constant by %v: helper names may repeat", f, notBump))
 		}
 	}
 }
@@ -608,6 +633,31 @@ func AllocRule(w *World, b *Backend, r *Result, rule string, labelsOnly ...bool)
 // ---------------------------------------------------------------------------
 // Mangling consistency (R-C02-mangle), registers (R-C02-reg), exit (R-C01-exit)
 // ---------------------------------------------------------------------------
+
+// isAdvanceOfField: v is load(the same field of the same receiver type) + positive constant.
+func isAdvanceOfField(v ssa.Value, fa *ssa.FieldAddr) bool {
+	bo, ok := v.(*ssa.BinOp)
+	if !ok || bo.Op != token.ADD {
+		return false
+	}
+	x, y := bo.X, bo.Y
+	if _, ok := x.(*ssa.Const); ok {
+		x, y = y, x
+	}
+	c, ok := y.(*ssa.Const)
+	if !ok || c.Value == nil || c.Value.Kind() != constant.Int {
+		return false
+	}
+	if n, ok := constant.Int64Val(c.Value); !ok || n <= 0 {
+		return false
+	}
+	ld, ok := x.(*ssa.UnOp)
+	if !ok || ld.Op != token.MUL {
+		return false
+	}
+	a, ok := ld.X.(*ssa.FieldAddr)
+	return ok && a.Field == fa.Field && types.Identical(a.X.Type(), fa.X.Type())
+}
 
 // selectCond fixes every choice keyed by cond to option idx.
 func selectCond(t Tmpl, cond string, idx int) Tmpl {
@@ -1015,7 +1065,7 @@ func FrameRule(w *World, b *Backend, r *Result, rule string) {
 		for _, name := range names {
 			mf := b.X.Methods[name]
 			for _, v := range mf.FieldsSet[f] {
-				inc := strings.Contains(v, "field:"+f+"+1")
+				inc := isBumpOf(v, f)
 				switch {
 				case name == "FuncStart" && inc:
 					bumps++
@@ -1327,7 +1377,7 @@ func PopRule(w *World, role string, r *Result, rule string, openers ...string) {
 				}
 				up, on := false, false
 				for _, v := range op.FieldsSet[f] {
-					if strings.Contains(v, "field:"+f+"+1") {
+					if isBumpOf(v, f) {
 						up = true
 					}
 					if v == "true" {
@@ -1348,7 +1398,7 @@ func PopRule(w *World, role string, r *Result, rule string, openers ...string) {
 			for f, vs := range op.FieldsSet {
 				up := false
 				for _, v := range vs {
-					if strings.Contains(v, "field:"+f+"+1") {
+					if isBumpOf(v, f) {
 						up = true
 					}
 				}
